@@ -596,7 +596,18 @@ Section Silence.
   Definition out_ar (out : Z) (bus output : arg) : M arg :=
     bind (replace_zeroes (as_list output)) (fun chans =>
     multi_new (new1_plain out 1) (bus :: chans)).
+  (* EVERY audio-rate output constructor has this shape: Out/ReplaceOut/OffsetOut.ar(bus, output),
+     XOut.ar(bus, xfade, output), LocalOut.ar(output):
+       output = as_list(output); output = _replace_zeroes_with_silence(output);
+       cls._multi_new('audio', *fixed, *output)            [fixed] = the arguments before the channels *)
+  Definition out_ar_gen (out : Z) (fixed : list arg) (output : arg) : M arg :=
+    bind (replace_zeroes (as_list output)) (fun chans =>
+    multi_new (new1_plain out 1) (fixed ++ chans)).
 End Silence.
+(* the control-rate ones (Out/ReplaceOut.kr, XOut.kr, LocalOut.kr): cls._multi_new(rate, *fixed, *as_list(output)):
+   the channel array is SPLICED, every channel is one more argument *)
+Definition out_kr_gen (out : Z) (fixed : list arg) (output : arg) : M arg :=
+  multi_new (new1_plain out 1) (fixed ++ as_list output).
 (* Out.kr(bus, output): cls._multi_new('control', bus, *as_list(output)) *)
 Definition out_kr (out : Z) (bus output : arg) : M arg :=
   multi_new (new1_plain out 1) (bus :: as_list output).
